@@ -12,7 +12,7 @@ BUDGET = {'quick': 250, 'thorough': 5000}
 TIME_LIMIT = {'quick': 50, 'thorough': 600}
 RULE = ('histories (1-10 steps) of write_env / write_env killed while writing the n-th file after k bytes / delete a '
         'file / replace a file by unreadable content / read_env over <= 6 tasks with all statuses, payloads from a '
-        'pool of picklable objects (nested dicts, numpy arrays, tuples, None), output_dir own / none / shared; every '
+        'pool of picklable objects (nested dicts, numpy arrays, tuples, None), two entries in three with the clocks of an earlier run, output_dir own / none / shared; every '
         'written file is additionally cut at EVERY byte and read back; non-trivial = at least one crash, deletion or '
         'corruption followed by a read that finds >= 1 DONE entry; distinct = case hash')
 CORRESPONDS = ('Model/EnvPersist.lean (writeEnv, writeEnvCrash, fromFile, mergeDone, readEnv with simpleCodec) vs '
